@@ -228,7 +228,10 @@ def entry_exit_harness(ctx):
 
 
 def nonterminator_harness(ctx):
-    for labels in itertools.product([None, gtirb.EdgeType.Fallthrough, gtirb.EdgeType.Branch, gtirb.EdgeType.Call, gtirb.EdgeType.Return], repeat=2):
+    # every edge type gtirb knows (a Syscall / Sysret edge also means the last instruction transfers control), pairs of them, and no edge
+    kinds = [None] + list(gtirb.EdgeType)
+    assert {t.name for t in gtirb.EdgeType} >= {"Branch", "Call", "Fallthrough", "Return", "Syscall", "Sysret"}
+    for labels in itertools.product(kinds, repeat=2):
         edges = [type("E", (), {"label": gtirb.Edge.Label(t)})() for t in labels if t is not None]
         blk = type("B", (), {"outgoing_edges": edges})()
         dis = ("i0", "i1", "i2")
